@@ -364,6 +364,8 @@ def X_exhaust(ctx, crate, rule, sources, key_prefix="", receivers=False, only_fn
             rooted = is_source_call(src, sources) or (receivers and src[0] == "call" and flow.last(src[2]) in ("iter", "into_iter", "try_iter") and "crossbeam_channel" in src[1])
             if receivers and src[0] == "param" and steps and "Receiver" in str(b.locals[src[1]]["ty"].get("path", "")) + str(b.locals[src[1]]["ty"].get("to", {}).get("path", "")):
                 rooted = True
+            if receivers and not rooted and flow.find(src, lambda n_: n_[0] == "call" and flow.last(n_[2]) in ("unbounded", "bounded")) and src[0] == "field" and src[2] == "1":
+                rooted = True
             if not rooted:
                 continue
             n += 1
@@ -394,7 +396,8 @@ def X_exhaust(ctx, crate, rule, sources, key_prefix="", receivers=False, only_fn
                 continue
             src, steps = flow.chain_of(e)
             rooted = is_source_call(src, sources)
-            # also: for model in <local call to a public semantics function> (bin)
+            if receivers and not rooted and flow.find(src, lambda n_: n_[0] == "call" and flow.last(n_[2]) in ("unbounded", "bounded")) and src[0] == "field" and src[2] == "1":
+                rooted = True
             if not rooted:
                 continue
             head = None
